@@ -274,7 +274,14 @@ pub fn run_c12(seed: u64, runno: u64) -> Acc {
     let mut rng = Rng::new(crate::rng::mix(seed, "C12", runno));
     let mut acc = Acc::new();
     let z = ZobristHasher::create_zobrist_hasher();
-    let game = gen_root(&mut rng);
+    let game = if runno % 61 == 7 {
+        // forcing check chains next to a quiet mate: check extensions make values of different
+        // mate lengths meet inside one shallow iteration
+        let p = Pos::from_fen(CROSS_CHECK_MATES[(runno / 61) as usize % CROSS_CHECK_MATES.len()]).unwrap();
+        Game { start: if (runno / 61) % 2 == 0 { p } else { workload::mirror(&p) }, moves: vec![], source: "cross-check" }
+    } else {
+        gen_root(&mut rng)
+    };
     judge_c12(&game, &mut acc, runno, &z);
     acc
 }
